@@ -44,6 +44,16 @@ pub fn c03_import(data: &[u8]) -> Result<(), String> {
 	let l = Lints::new();
 	// only inputs the independent decoder can read give a reference to compare with
 	let Ok(orig) = x509::parse_cert(data, &l) else { return Ok(()) };
+	// "a CA certificate": a byte string OpenSSL's parser takes for a certificate and whose names are
+	// canonical DER (an overlong OID arc or a BER length inside the subject makes the input something
+	// else than an X.509 certificate; what an import does with it is C10's subject, not this one's)
+	if openssl::x509::X509::from_der(data).is_err() {
+		let _ = openssl::error::ErrorStack::get();
+		return Ok(());
+	}
+	if l.take().iter().any(|x| x.contains("subject") || x.contains("issuer")) {
+		return Ok(());
+	}
 	let key = keys::make_key(&KeySpec { alg: KeyAlg::Ed25519, idx: 0, rsa_hash: RsaHash::Sha256, remote: !cfg!(feature = "crypto") })?;
 	let issuer = match crate::runner::no_panic(|| params.self_signed(&key))? {
 		Ok(c) => c,
